@@ -4,6 +4,8 @@
 package js
 
 //@ pred jlInv(l) := l != nil && l.r != nil && inputInv(l.r)
+// a lexer error set during a call was reported for a byte inside the span that call scanned
+//@ pred jlErr(l) := l.err == old(l.err) || (l.err != nil && old(l.r.pos) <= errOff(l.err) && errOff(l.err) <= l.r.pos)
 //@ pred jlStep(l) := jlInv(l) && l.r.pos >= old(l.r.pos) && l.r.start == old(l.r.start)
 
 //@ func Lexer.consumeWhitespace
@@ -45,6 +47,7 @@ package js
 //@   ensures[S]  result ==> l.r.pos == old(l.r.pos)+1
 
 //@ func Lexer.consumeUnicodeEscape
+//@   ensures[F,C06] @escape-start: result ==> old(l.r.buf[l.r.pos]) == '\\' && old(l.r.buf[l.r.pos+1]) == 'u'
 //@   preserves[S] jlStep(l)
 //@   ensures[S]  !result ==> l.r.pos == old(l.r.pos)
 //@   ensures[S]  result ==> l.r.pos > old(l.r.pos)
@@ -61,6 +64,8 @@ package js
 //@   ensures[S]  result ==> l.r.pos > old(l.r.pos)
 
 //@ func Lexer.consumeCommentToken
+//@   ensures[F,C15] @err-span: jlErr(l) && (l.err != old(l.err) ==> result == ErrorToken)
+//@   loop * candidate[F] l.err == old(l.err)
 //@   preserves[S] jlStep(l)
 //@   requires[S] l.r.buf[l.r.pos] != 0
 //@   ensures[S]  result == ErrorToken ==> l.r.pos == old(l.r.pos) || l.err != nil
@@ -96,6 +101,7 @@ package js
 //@        result == EqEqToken || result == NotEqToken || result == LtEqToken || result == GtEqToken || result == AddEqToken || result == SubEqToken || result == MulEqToken || result == DivEqToken || result == ModEqToken || result == BitAndEqToken || result == BitOrEqToken || result == BitXorEqToken
 
 //@ func Lexer.consumeIdentifierToken
+//@   ensures[F,C06] @id-start: result ==> identifierStartTable[old(l.r.buf[l.r.pos])] || old(l.r.buf[l.r.pos]) >= 0xC0 || (old(l.r.buf[l.r.pos]) == '\\' && old(l.r.buf[l.r.pos+1]) == 'u')
 //@   preserves[S] jlStep(l)
 //@   ensures[S]  !result ==> l.r.pos == old(l.r.pos)
 //@   ensures[S]  result ==> l.r.pos > old(l.r.pos)
@@ -109,6 +115,8 @@ package js
 //@   ensures[S]  result ==> l.r.pos > old(l.r.pos)
 
 //@ func Lexer.consumeNumericToken
+//@   ensures[F,C15] @err-span: jlErr(l) && (l.err != old(l.err) ==> result == ErrorToken)
+//@   loop * candidate[F] l.err == old(l.err)
 //@   preserves[S] jlStep(l)
 //@   requires[S] ('0' <= l.r.buf[l.r.pos] && l.r.buf[l.r.pos] <= '9') || l.r.buf[l.r.pos] == '.'
 //@   ensures[F,C06] @num-kind: result == ErrorToken || result == DecimalToken || result == BinaryToken || result == OctalToken || result == HexadecimalToken || result == IntegerToken
@@ -120,6 +128,8 @@ package js
 //@   loop * decreases len(l.r.buf) - l.r.pos
 
 //@ func Lexer.consumeStringToken
+//@   ensures[F,C15] @err-span: jlErr(l) && (l.err != old(l.err) ==> result == ErrorToken)
+//@   loop * candidate[F] l.err == old(l.err)
 //@   preserves[S] jlStep(l)
 //@   ensures[F,C06] @str-kind: result == ErrorToken || result == StringToken
 //@   requires[S] l.r.buf[l.r.pos] != 0
@@ -127,14 +137,25 @@ package js
 //@   loop * candidate l.r.pos > old(l.r.pos)
 //@   loop * decreases len(l.r.buf) - l.r.pos
 
+// State of the regular-expression body scanner after the bytes s[lo:hi): 0 plain, 1 inside a character class,
+// 2/3 the same right after a backslash (the next byte is escaped). '/' ends the literal only in state 0.
+//@ fold reSt(s, k, acc) init 0 := ite(acc >= 2, acc - 2, ite(s[k] == '\\', acc + 2, ite(s[k] == '[', 1, ite(s[k] == ']', 0, acc))))
+//@ pred reEnd(b, lo, j) := reSt(b, lo, j) == 0 && b[j] == '/'
 //@ func Lexer.consumeRegExpToken
 //@   preserves[S] jlStep(l)
 //@   requires[S] l.r.buf[l.r.pos] != 0
 //@   ensures[S]  l.r.pos > old(l.r.pos)
+// the literal ends at the first '/' that is neither escaped nor inside a character class; flags follow
+//@   ensures[F,C06] @regexp-end: result ==> exists(e, old(l.r.pos)+1, l.r.pos, reEnd(l.r.buf, old(l.r.pos)+1, e) && forall(j, old(l.r.pos)+1, e, !reEnd(l.r.buf, old(l.r.pos)+1, j)))
+//@   loop 1 invariant[F] l.r.pos >= old(l.r.pos)+1 && reSt(l.r.buf, old(l.r.pos)+1, l.r.pos) == ite(inClass, 1, 0)
+//@   loop 1 invariant[F] forall(j, old(l.r.pos)+1, l.r.pos, !reEnd(l.r.buf, old(l.r.pos)+1, j))
+//@   loop 2 invariant[F] exists(e, old(l.r.pos)+1, l.r.pos, reEnd(l.r.buf, old(l.r.pos)+1, e) && forall(j, old(l.r.pos)+1, e, !reEnd(l.r.buf, old(l.r.pos)+1, j)))
 //@   loop * candidate l.r.pos > old(l.r.pos)
 //@   loop * decreases len(l.r.buf) - l.r.pos
 
 //@ func Lexer.consumeTemplateToken
+//@   ensures[F,C15] @err-span: jlErr(l) && (l.err != old(l.err) ==> result == ErrorToken)
+//@   loop * candidate[F] l.err == old(l.err)
 //@   ensures[F,C06] @tpl-kind: result == ErrorToken || result == TemplateToken || result == TemplateStartToken || result == TemplateMiddleToken || result == TemplateEndToken
 //@   preserves[S] jlStep(l)
 //@   requires[S] l.r.buf[l.r.pos] != 0 && len(l.templateLevels) >= 1
@@ -145,10 +166,15 @@ package js
 
 //@ func Lexer.RegExp
 //@   preserves[S] jlInv(l)
+//@   ensures[F,C06] @regexp-kind: result0 == RegExpToken || (result0 == ErrorToken && result1 == nil)
+//@   ensures[F,C06] @regexp-rewind: result0 == RegExpToken ==> len(result1) >= 2 && result1[0] == '/' && sameMem(result1, l.r.buf[l.r.pos - len(result1):l.r.pos]) &&
+//@        (l.r.pos - len(result1) == old(l.r.pos) - 1 || (l.r.pos - len(result1) == old(l.r.pos) - 2 && old(l.r.buf[l.r.pos-1]) == '='))
+//@   ensures[F,C06] @regexp-end: result0 == RegExpToken ==> exists(e, 1, len(result1), reEnd(result1, 1, e) && forall(j, 1, e, !reEnd(result1, 1, j)))
 
 // spelled10(r, t): r and t are the same byte string of at most ten bytes (quantifier-free: the longest keyword has ten)
 //@ pred sameAt(r, t, k) := k < len(t) ==> r[k] == t[k]
 //@ pred spelled10(r, t) := len(r) == len(t) && len(t) <= 10 && sameAt(r, t, 0) && sameAt(r, t, 1) && sameAt(r, t, 2) && sameAt(r, t, 3) && sameAt(r, t, 4) && sameAt(r, t, 5) && sameAt(r, t, 6) && sameAt(r, t, 7) && sameAt(r, t, 8) && sameAt(r, t, 9)
+//@ pred jsIllegal(c) := c == '#' || c == '@' || c == 0x7F || (1 <= c && c < 0x20 && c != '\t' && c != '\n' && c != '\v' && c != '\f' && c != '\r')
 //@ pred punct1(tt) := tt == OpenBraceToken || tt == CloseBraceToken || tt == OpenParenToken || tt == CloseParenToken || tt == OpenBracketToken || tt == CloseBracketToken || tt == DotToken || tt == SemicolonToken || tt == CommaToken || tt == QuestionToken || tt == ColonToken
 //@ pred punctByte(tt) := ite(tt == OpenBraceToken, '{', ite(tt == CloseBraceToken, '}', ite(tt == OpenParenToken, '(', ite(tt == CloseParenToken, ')', ite(tt == OpenBracketToken, '[', ite(tt == CloseBracketToken, ']', ite(tt == DotToken, '.', ite(tt == SemicolonToken, ';', ite(tt == CommaToken, ',', ite(tt == QuestionToken, '?', ':'))))))))))
 //@ func Lexer.Next
@@ -172,6 +198,9 @@ package js
 //@   ensures[F,C06] @keyword-canonical: ReservedToken < result0 && result0 <= WithToken ==> spelled10(result1, reservedWordBytes[result0 - ReservedToken])
 //@   ensures[F,C06] @ctxkeyword-canonical: IdentifierToken < result0 && result0 <= TargetToken ==> spelled10(result1, identifierBytes[result0 - IdentifierToken])
 //@   ensures[F,C06] @tokentype-range: result0 <= PrivateIdentifierToken || (NumericToken < result0 && result0 <= IntegerToken) || (PunctuatorToken < result0 && result0 <= EllipsisToken) || (OperatorToken < result0 && result0 <= OptChainToken) || (ReservedToken < result0 && result0 <= WithToken) || (IdentifierToken <= result0 && result0 <= TargetToken)
+//@   ensures[F,C15] @err-in-span: l.err != nil ==> result0 == ErrorToken && old(l.r.pos) <= errOff(l.err) && errOff(l.err) <= l.r.pos
+// a character that cannot start any token ('#' not followed by an identifier, '@', DEL, control characters) is reported at exactly that character
+//@   ensures[F,C15] @err-at-char: result0 == ErrorToken && l.err != nil && jsIllegal(old(l.r.buf[l.r.pos])) ==> errOff(l.err) == old(l.r.pos)
 //@   ensures[F,C06] @tokentype-closed: result0 != PunctuatorToken && result0 != OperatorToken && result0 != NumericToken && result0 != RegExpToken
 
 //@ func Lexer.Err
